@@ -266,13 +266,26 @@ def rules(P, R, prefix="C17"):
         for (f, n), i in ordinal_keys(users, lambda x: x[0].path):
             pm = f.parents()
             par = pm.get(id(n))
-            ok6 = False
+            # the threshold may first be bound to an immutable local: then every use of that local is judged
+            uses = [n]
+            if par is not None and par["k"] == "slet" and par["pat"].get("k") == "pbind" and not par["pat"].get("mut"):
+                vid = par["pat"]["id"]
+                uses = [x for x in f.nodes() if x["k"] == "var" and x.get("id") == vid]
+            ok6 = bool(uses)
             how = "parent is %s" % (par["k"] if par else None)
-            if par is not None and par["k"] == "bin":
-                op = par["op"]
-                right = par["r"] is n
-                ok6 = (op == ">=" and right) or (op == "<=" and not right) or (op == "<" and right) or (op == ">" and not right)
-                how = "`%s`" % ir.pp(par, maxlen=120)
+            for u in uses:
+                up = pm.get(id(u))
+                while up is not None and up["k"] in ("ref",) or (up is not None and up["k"] == "un" and up.get("op") == "*"):
+                    u, up = up, pm.get(id(up))
+                if up is not None and up["k"] == "bin":
+                    op = up["op"]
+                    right = up["r"] is u
+                    okc = (op == ">=" and right) or (op == "<=" and not right) or (op == "<" and right) or (op == ">" and not right)
+                    how = "`%s`" % ir.pp(up, maxlen=120)
+                else:
+                    okc = False
+                    how = "threshold is used by `%s`" % (up["k"] if up else None)
+                ok6 = ok6 and okc
             R.judge(ok6, prefix + ".O6", key(f, "weight >= quorum_threshold()" + tag, i), n["sp"], how,
                     "quorum comparison %s is not `weight >= threshold` (or its negation `weight < threshold`)" % how)
 
